@@ -491,3 +491,6 @@ c11_bcast_num!(c11_t_ls_mod, BinaryOp::Modulo, Shape::ListScalar, any_f64_m(3));
 c11_bcast_num!(c11_t_sl_mod, BinaryOp::Modulo, Shape::ScalarList, any_f64_m(3));
 c11_bcast_num!(c11_t_ll_mod, BinaryOp::Modulo, Shape::ListList, any_f64_m(3));
 c11_num_num!(c11_t_ss_mod_m3, BinaryOp::Modulo, any_f64_m(3));
+// `^` is libm pow: what is decided is that the two operands reach it in source order
+c11_num_num!(c11_t_ss_pow_m2, BinaryOp::Power, any_f64_m(2));
+c11_bcast_num!(c11_t_sl_pow_m2, BinaryOp::Power, Shape::ScalarList, any_f64_m(2));
